@@ -1,3 +1,5 @@
+//go:build drv_realtime || drv_all
+
 package main
 
 import (
